@@ -412,7 +412,11 @@ def functionalise_tie(run, rnd, quick, batch=0):
                     nested_def=False)
     o2 = progs.Opts(loop_else=False, reads='safe', try_=False, with_=False, raise_=False, max_stmts=16, max_depth=5,
                     fresh_for_targets=True, nested_def=False, only={'if', 'while', 'for', 'break', 'continue', 'return', 'expr', 'aug', 'tuple'})
-    srcs = [progs.gen_function(rnd, rnd.choice([o1, o2])) for _ in range(n)]
+    # explicit raise and try / except / else around and inside the rewritten statements (no finally clauses: the CFG does not
+    # wire raise to finally, a documented limit of the analyses, so the closure conditions need not hold there)
+    o3 = progs.Opts(loop_else=False, reads='safe', with_=False, finally_=False, except_as=False, max_stmts=14, fresh_for_targets=True,
+                    nested_def=False)
+    srcs = [progs.gen_function(rnd, rnd.choice([o1, o2, o3])) for _ in range(n)]
     cdir = os.path.join(vlib.ROOT, 'corpus', 'C01fn')
     if os.path.isdir(cdir):
         srcs = [open(os.path.join(cdir, f)).read() for f in sorted(os.listdir(cdir)) if f.endswith('.py')] + srcs
@@ -447,7 +451,7 @@ def functionalise_tie(run, rnd, quick, batch=0):
             'Require Import MV.Fn.FnLang MV.Fn.FnCheck.',
             'Definition cases : list fcase := [', ';\n'.join(cases), '].',
             'Eval vm_compute in failing_fcases cases.',
-            'Eval vm_compute in (map (fun c => (fst c, why_block (snd c) [])) (filter (fun c => negb (chk_block (snd c) [])) cases), tt).']
+            'Eval vm_compute in (map (fun c => (fst c, why_block (snd c) [] [])) (filter (fun c => negb (chk_block (snd c) [] [])) cases), tt).']
     rc, out = vlib.coq_eval('C01', 'functionalise_%d' % batch, '\n'.join(body), timeout=900)
     bad = vlib.parse_coq_list_of_nat(out) if rc == 0 else None
     if bad is None:
